@@ -10,7 +10,8 @@ BOUNDS = {"quick": "URL(s) for all strings of <= 3 code points, URL(s, encoded=T
                    "method (discovered by introspection) on URLs from strings of <= 2 code points and from two authority skeletons; modifiers with a "
                    "1-code-point argument; build() with symbolic port and 2-code-point texts; compiled "
                    "quoter (lowered, BUF_SIZE 1..3): memory-safety assertions and every allocation-failure schedule for texts of <= 2 code points",
-          "thorough": "strings of <= 5 code points; modifier arguments <= 2 code points; allocation faults for texts of <= 3 code points"}
+          "thorough": "URL(s) for strings of <= 4 code points (encoded=True: <= 5); accessors on strings of <= 3 and all skeletons; modifier arguments "
+                      "<= 2 code points; allocation faults for texts of <= 3 code points"}
 ASSUMPTIONS = ["symbolic host text that looks like an IP literal, non-ASCII authority text (NFKC) and IDNA of symbolic hosts are cut and counted "
                "(idna / unicodedata / ipaddress are not symbolically executed)",
                "port texts that only Python's int() accepts (sign, underscore, whitespace, non-ASCII digits) are cut and counted",
@@ -172,6 +173,7 @@ def h_build_path(ctx, skeleton):
 def h_build_authority(ctx, n):
     P = ctx.P
     a = ctx.str("a", n)
+    ctx.note("build_authority", True)
     r = call(lambda: P.URL.build(scheme="http", authority=a, path="/"))
     ctx.observe("build", outcome(r))
     ctx.check("only-ValueError-TypeError:build(authority)", ok_type(r), r[1])
@@ -280,7 +282,7 @@ def families(tier):
     q = tier == "quick"
     fams = []
     for n in range(0, (4 if q else 5) + 1):
-        if n <= 3 or not q:
+        if n <= 3 or (not q and n <= 4):
             fams.append(Family("ctor/free/n=%d" % n, h_ctor, dict(n=n)))
         fams.append(Family("ctor-encoded/free/n=%d" % n, h_ctor, dict(n=n, encoded=True)))
     for n in range(0, (2 if q else 3) + 1):
